@@ -75,6 +75,9 @@ reg = {
                   # now, the ASSUMED contract of alloc_lowest
                   "helpers": ["xxh3_checksum", "div_ceil_u32", "pow2_u32", "vec_reverse", "min_u8", "max_u32", "min_u32", "alloc_lowest"]},
         "types_sep": {"overlay": "units/types_sep.ovl", "canaries": ["canary_types_sep"], "helpers": ["common_prefix_len"]},
+        # the page-level checksum walk over an abstract page store
+        "merkle": {"overlay": "units/merkle.ovl", "canaries": ["canary_merkle"],
+                   "helpers": ["memory", "get_page", "leaf_checksum", "branch_checksum", "new", "count_children", "child_page", "child_checksum"]},
         # glue code verified against assumed, uninterpreted callee contracts (tree_ok)
         "dbverify": {"overlay": "units/dbverify.ovl", "canaries": ["canary_dbverify"],
                      "helpers": ["get_data_root", "get_system_root", "new", "clone", "untracked", "verify_checksums"]},
@@ -152,14 +155,17 @@ P["C01"] = {
 }
 P["C12"] = {
     "level": "proof",
-    "verus": [{"unit": "dbverify", "functions": ["Database::verify_primary_checksums", "Database::verify_checksums"]}],
-    "assumptions": ["dbverify unit: TableTree::verify_checksums returns Ok(b) with b == tree_ok(root of the tree it was built from) (uninterpreted predicate; the page-level walk itself is not verified here); TransactionalMemory::get_data_root / get_system_root return the roots of the primary slot"],
+    "verus": [{"unit": "dbverify", "functions": ["Database::verify_primary_checksums", "Database::verify_checksums"]},
+              {"unit": "merkle", "functions": ["RawBtree::verify_checksum", "RawBtree::verify_checksum_helper"]}],
+    "assumptions": ["merkle unit: pages, BranchAccessor::{new, count_children, child_page, child_checksum}, PageResolver::get_page, PageImpl::memory and leaf_checksum / branch_checksum are abstract: assumed contracts over uninterpreted functions of the page number (kind, recomputed checksum, child table); <[T]>::contains is given no specification",
+                    "dbverify unit: TableTree::verify_checksums returns Ok(b) with b == tree_ok(root of the tree it was built from) (uninterpreted predicate; the page-level walk itself is not verified here); TransactionalMemory::get_data_root / get_system_root return the roots of the primary slot"],
     "kani": [K["C12-K1K2"], K["C12-K2b"], alias("C01-K3", "C12-K3"), K["C12-K4"]],
-    "explanation": "Kernel: the corrupted flag of a commit slot is exactly 'stored checksum != computed' for all 2^1016 slot images; a slot that failed verification is written back verbatim (never re-serialised as valid) until a new commit overwrites it; selection never returns a corrupt slot; a version byte other than 3 is never parsed; the REAL glue Database::verify_primary_checksums / verify_checksums answers Ok(true) only if BOTH the data tree and the system tree of the primary slot verified (against assumed callee contracts).",
-    "not_decided": "every byte position of every image; the page-level Merkle walk (verify_checksum_helper); XXH3 being XXH3",
+    "explanation": "Kernel: the corrupted flag of a commit slot is exactly 'stored checksum != computed' for all 2^1016 slot images; a slot that failed verification is written back verbatim (never re-serialised as valid) until a new commit overwrites it; selection never returns a corrupt slot; a version byte other than 3 is never parsed; the REAL page-level walk RawBtree::verify_checksum(_helper) returns Ok(true) only if the checksum of EVERY page of the subtree was recomputed and matched the checksum its parent (or the root header) stores for it, for trees of any shape up to the depth limit (soundness of the Merkle walk, over an abstract page store); the REAL glue Database::verify_primary_checksums / verify_checksums answers Ok(true) only if BOTH the data tree and the system tree of the primary slot verified (against assumed callee contracts).",
+    "not_decided": "every byte position of every image; TableTree::verify_checksums (iterates a B-tree range: no Verus model) and the multimap subtree walk; that leaf_checksum/branch_checksum hash every byte an accessor can return (bounded C10-P3 only); XXH3 being XXH3",
 }
 P["C10"] = {
     "level": "other",
+    "verus": [{"unit": "merkle", "functions": ["RawBtree::verify_checksum", "RawBtree::verify_checksum_helper"]}],
     "kani": [K["C10-F1"], K["C10-F2"], K["C10-F3"], K["C10-F4"], K["C10-F6a"], alias("C11-R3", "C10-F6b"), alias("C06-K2", "C10-F6c"),
              alias("C07-K1s", "C10-F6d"), alias("C04-L1f", "C10-P1f"), alias("C04-L1v", "C10-P1v")],
     "explanation": "Kernel = format conformance: every fixed-size encoder (page number, tree header, commit slot, database header, freed-page key, allocator-state key, savepoint record, page list) writes exactly the byte layout of docs/design.md (offsets are literals transcribed from the document, not the code's constants) - complete, loop-free; leaf pages: offsets tables, entries and the checksummed prefix - bounded.",
